@@ -1,6 +1,6 @@
 (* C05 -- scoped dispatch (partial).  Only statements, `exact` proofs and Print Assumptions. *)
 From LolModel Require Import Machine Selectors Rewriter.
-From LolProofs Require Import Memory Scope StackTree TypedCounters EndTags.
+From LolProofs Require Import Memory Scope StackTree TypedCounters EndTags AstSem VmRun ScopeCss.
 From LolSpec Require Import CssSem.
 From Coq Require Import List.
 Open Scope nat_scope.
@@ -52,6 +52,26 @@ Theorem C05_end_tag_stops_exactly_the_closed_elements :
             (rset_vm c (fst (stack_pop_up_to (r_stack c) (K name))) (r_vm_charged c)).
 Proof. exact end_tag_stops_exactly_the_closed_elements. Qed.
 
+(* C05 + C04 at the controller.  For every non-empty list of selectors with their handlers and EVERY sequence of start tags
+   (namespace, attributes, self-closing flag) and end tags run through the rewriter's controller from its initial state: a
+   selector-scoped comment / text handler is active (receives tokens) exactly when some OPEN element of the tree induced by
+   the tags is matched -- CssSem.selector_matches, with its ancestors -- by a selector that owns the handler: never
+   earlier, not after that element is closed, at any depth.  Side conditions as in C04_selector_vm_is_css_matching. *)
+Theorem C05_scoped_handlers_follow_css_matching_on_the_tree :
+  forall sels docs bail fa isz mx ext ops c,
+  sels <> nil ->
+  never_wraps_a (mkTree nil nil) ops ->
+  vm_run (new_rwc sels docs bail fa isz mx) ext ops = Some c ->
+  let c0 := new_rwc sels docs bail fa isz mx in
+  let chain := chain_of (tree_run_a (mkTree nil nil) ops) in
+  (forall j, j < length chain -> Forall (fun sel => sel_ok sel (firstn (S j) chain)) (map sh_selector sels)) ->
+  forall k l, nth_error (r_locators c0) k = Some l ->
+  let opened (own : nat -> bool) := exists j e id sh, nth_error chain j = Some e /\ own id = true /\ nth_error sels id = Some sh /\
+                                     selector_matches (sh_selector sh) e (rev (firstn j chain)) = true in
+  (forall i, lc_cm l = Some i -> (0 < cnt (r_comment c) i <-> opened (owns (r_locators c0) lc_cm i))) /\
+  (forall i, lc_tx l = Some i -> (0 < cnt (r_text c) i <-> opened (owns (r_locators c0) lc_tx i))).
+Proof. exact scoped_handlers_follow_css. Qed.
+
 (* non-vacuity: `div` with a comment handler, after writing "<div><p><!--" the handler is active and exactly one
    (element, selector) pair owns it; after "</div>" it is inactive again *)
 Definition ex_sels := [mkSH [mkComplex [SType (bs "div")] []] None (Some []) None].
@@ -70,3 +90,4 @@ Print Assumptions C05_handler_counts_track_open_matched_elements.
 Print Assumptions C05_scoped_handler_active_iff_matched_element_open.
 Print Assumptions C05_end_tag_pops_exactly_the_closed_elements.
 Print Assumptions C05_end_tag_stops_exactly_the_closed_elements.
+Print Assumptions C05_scoped_handlers_follow_css_matching_on_the_tree.
